@@ -1,5 +1,6 @@
 import Driver.Loop
 import SquidModel.Cache.Collapse
+import SquidModel.Gen.CollapseFlags
 open SquidModel.Cache.Collapse
 
 namespace Driver.C18
@@ -111,7 +112,7 @@ def sortStrings (l : List String) : List String := l.foldl (fun acc x => insertS
 
 def simulate (sc : Sc) : String :=
   let O := origin sc
-  let s0 := request (State.init sc.cf) false
+  let s0 := request (State.init sc.cf SquidModel.Gen.CollapseFlags.releasedFirst) false
   let s1 := window O sc 0 s0
   let sEnd :=
     if sc.E == "err" then
